@@ -180,6 +180,9 @@ def check_results(rep, repo, f):
             h = h[2][0]
         elif order in ('gen', 'gre'):
             rep.fail('C07.R6', f.where, 'profiles are printed through _get_profile_string', got=show(h)[:80], construct='format of ' + label)
+        while (h[0] == 'call' and h[1] in (S('list'), S('tuple'), A(S('copy'), 'copy'), S('copy')) and len(h[2]) == 1 and not (len(h) > 3 and h[3])) \
+                or (h[0] == 'slice' and h[2] == NONE and h[3] == NONE):
+            h = h[2][0] if h[0] == 'call' else h[1]          # a copy of the accumulator (list(x), x[:]) prints the same
         if not (h[0] == 'attr' and h[1] == SELF):
             rep.fail('C07.R6', f.where, 'the line prints an accumulator of the solver unchanged', got=show(h)[:100], want='str(self.<accumulator>)', construct='value of ' + label)
             continue
@@ -1058,8 +1061,16 @@ def check_validity(rep, repo):
     # flatten inlined helper calls at top level
     def flat(es):
         out = []
-        for e in es:
-            if e.kind == 'call':
+        skip = set()
+        for k_, e in enumerate(es):
+            if id(e) in skip:
+                continue
+            if e.kind == 'call' and k_ + 1 < len(es) and es[k_ + 1].kind == 'return' and (es[k_ + 1].value[0] == 'top' or (es[k_ + 1].value[0] == 'call' and getattr(e, 'target', None) is not None
+                                                                                                           and show(es[k_ + 1].value[1]).endswith(e.target.name))):
+                # `return helper(...)`: the verdict IS the helper's verdict - its checks and its own final return take the place
+                out += flat(e.body)
+                skip.add(id(es[k_ + 1]))
+            elif e.kind == 'call':
                 out += [x for x in flat(e.body) if x.kind != 'return']      # the callee's own return resumes here
             elif e.kind == 'if' and getattr(e, 'synthetic', False) and not e.orelse:
                 out += flat(e.then)             # the statements after `if c: return False`, which run when c is false
